@@ -271,14 +271,17 @@ pub fn c01(tier: Tier) -> ! {
                 for &ratio in [1., 0.8].iter() {
                     let mut l = 4.4 * r / ratio;
                     while l > 1.2 * r {
-                        for &x in [0., 0.03, -0.05].iter() {
-                            for &y in [-0.17, 0.08, 0.33].iter() {
+                        for &x in [0., 0.03, -0.05, 0.1, -0.13].iter() {
+                            for &y in [-0.17, -0.09, 0.08, 0.21, 0.33].iter() {
                                 for (pi, &phi) in phis.iter().enumerate() {
-                                    // (every other orientation with the site stored three cells
-                                    // along x and two cells back along y: the same crystal)
-                                    let (sx, sy) = if pi % 2 == 1 { (3., -2.) } else { (0., 0.) };
-                                    let p = Params { length: l, ratio, angle: PI / 2., x: x + sx, y: y + sy, phi };
+                                    let p = Params { length: l, ratio, angle: PI / 2., x, y, phi };
                                     c01_eval(&tpl, group, spec, &body, &p, &mut out, "mid-cell sites");
+                                    // (every other orientation also with the site stored three cells
+                                    // along x and two cells back along y: the same crystal)
+                                    if pi % 2 == 1 {
+                                        let p = Params { length: l, ratio, angle: PI / 2., x: x + 3., y: y - 2., phi };
+                                        c01_eval(&tpl, group, spec, &body, &p, &mut out, "mid-cell sites");
+                                    }
                                 }
                             }
                         }
